@@ -51,3 +51,11 @@ chk('C12', 'exploration',
     'For generated symbols, kinds and option sets the document is produced through every route (stream+kind, file name, data URIs, svg_inline, svgz, in-process CLI with generated argv, CLI stdout vs terminal(), QRCodeSequence.save) and the results are compared byte by byte after masking the three timestamp fields; sequence file names and contents and unknown extensions are checked; outputs are parsed by the readers of their kind.',
     'Differential between routes; the documented apostrophe substitution of SVG data URIs is undone by an own tokenizer; sampled.',
     'Hypothesis search, differential comparison of output routes', 'DESIGN.md 4/C12')
+chk('C14', 'exploration',
+    'The documented argument domains of the four factories, including boundary and malformed values and every documented exclusion, are generated / enumerated; outcomes other than a valid symbol (C01-C03 checks), ValueError or LookupError (unknown codec) are bucketed by exception type and innermost segno frame. A metamorphic spelling relation (letter case, numeric strings) must give identical symbols. Every output kind x malformed colour / scale / border / kind value is enumerated and must raise ValueError. The CLI is run in-process: status 0 only with a parsable output, refusals of make as exit status 1 with the library message. A 120 s watchdog per case detects endless loops.',
+    'Domain = documented argument types (wrong types are not generated). Sampled, with enumerated grids for exclusions and serializer validation.',
+    'Hypothesis search + enumeration with exception-type contract, metamorphic spelling relation, CLI exit contract', 'DESIGN.md 4/C14')
+chk('C16', 'exploration',
+    'Field values weighted towards delimiters, escapes and line breaks are generated for the WIFI, MeCard, vCard, geo, mailto and EPC factories; the payloads are parsed back by own parsers (unescaped-; splitting, vCard line structure, URI grammars, EPC069-12 line layout with Decimal equality and the 331 byte / length limits); every second case also builds the symbol with the make_* factory and decodes it with the reference decoder (EPC: level M, version <= 13).',
+    'Trusted: parsers in vlib/props/c16.py, reference decoder. Sampled.',
+    'Hypothesis search with round-trip parsers for every helper payload format', 'DESIGN.md 4/C16')
